@@ -55,7 +55,7 @@ func init() {
 func c01Cases(tier string, seed int64) []string {
 	n := 10
 	if tier == "thorough" {
-		n = 96
+		n = 640
 	}
 	var l []string
 	for i := 0; i < n; i++ {
@@ -65,7 +65,7 @@ func c01Cases(tier string, seed int64) []string {
 	// generated consistent genesis configurations, each followed by a short history
 	nw := 4
 	if tier == "thorough" {
-		nw = 30
+		nw = 200
 		l = append(l, "genesis:mainnet")
 	}
 	for i := 0; i < nw; i++ {
